@@ -149,7 +149,7 @@ def _assigned_in(lp, did):
 
 class Counted:
     """summary of a counted loop: test evaluations T = s*(B - I) + cb as terms to be substituted at loop entry"""
-    __slots__ = ('loop', 'did', 'step', 'ca', 'cb', 'bound', 'strict', 'ctr_term', 'why')
+    __slots__ = ('loop', 'did', 'step', 'ca', 'cb', 'bound', 'strict', 'ctr_term', 'why', 'in_test')
 
 
 def counted(lp):
@@ -172,6 +172,18 @@ def counted(lp):
     if op == '==':
         return 'loop continues on equality'
     l, r = sym.strip_casts(cond['l']), sym.strip_casts(cond['r'])
+    # the step written inside the test: `while (--n != 0)` compares the stepped value, `while (n-- != 0)` the value before the step
+    in_test = None
+    for nm in ('l', 'r'):
+        side = l if nm == 'l' else r
+        if isinstance(side, dict) and side.get('k') == 'un' and side.get('op') in ('++', '--', '++post', '--post', 'post++', 'post--'):
+            o = sym.strip_casts(side.get('e') or {})
+            if isinstance(o, dict) and o.get('k') == 'local':
+                in_test = 'post' if 'post' in side['op'] else 'pre'
+                if nm == 'l':
+                    l = o
+                else:
+                    r = o
     cands = []
     for side, other, flip in ((l, r, False), (r, l, True)):
         if isinstance(side, dict) and side.get('k') == 'local':
@@ -184,8 +196,10 @@ def counted(lp):
     if len(changes) != 1 or changes[0][1] is None:
         return 'the loop counter is not changed by exactly one unit step per cycle'
     e, step = changes[0]
-    if e.block == lp.head or not once_per_cycle(lp, e.block):
+    if in_test is None and (e.block == lp.head or not once_per_cycle(lp, e.block)):
         return 'the counter step is not executed exactly once in every cycle'
+    if in_test is not None and e.block != lp.head:
+        return 'the counter is stepped in the test and in the body'
     # continue-condition as `counter OP bound`
     if flip:
         op = {'<': '>', '>': '<', '<=': '>=', '>=': '<=', '!=': '!='}[op]
@@ -199,7 +213,12 @@ def counted(lp):
     c = Counted()
     c.loop, c.did, c.step, c.bound, c.ctr_term = lp, ctr['did'], step, bound, ctr
     c.ca = 1 if lp.kind == 'DoStmt' else 0
+    if in_test == 'pre':
+        c.ca = 1            # the T-th comparison sees the counter after T steps
+    elif in_test == 'post':
+        c.ca = 0            # ... after T - 1 steps
     c.cb = 1 - c.ca
+    c.in_test = in_test
     # `<=` / `>=` run one more cycle than `<` / `>` / `!=`: fold into the bound as B + s
     c.strict = op in ('<', '>', '!=')
     c.why = '%s loop, counter %s by one per cycle while (counter %s bound)' % (
@@ -222,7 +241,7 @@ def evaluations(c, init_lin, bound_lin):
 
 def executions(c, block, T):
     """linear form of how often an event in `block` (once per cycle) runs, given T test evaluations"""
-    if c.ca:
+    if c.loop.kind == 'DoStmt':
         return dict(T)                              # do-while: the body precedes every test
     return linear.sub(T, {'': 1})                   # for / while: the body follows every test but the last
 
